@@ -1,11 +1,11 @@
 SPECIFICATION MCSpec
 CONSTANTS Sender = {"s1", "s2", "s3"}
-          MaxFaults = 3
+          MaxFaults = 2
           QueueMode = FALSE
           QCap = 2
-          MaxConn = 4
+          MaxConn = 3
           Broken = "none"
-          NPacks = 6
+          NPacks = 5
 CONSTRAINT ConnBound
 VIEW MCView
 INVARIANTS TypeOK MutualExclusion FramesWhole FreshStart InOrderAtMostOnce HeaderRight ErrMeansNotDelivered NoLossSafe Recovers WriterErrorJustified
